@@ -39,7 +39,7 @@ def gen_cases(ctx):
                "url": rng.choice(["http://www.google.com", "https://null.com/", "https://a.org/x",
                                   "http://b.info", "https://www.c.net/q"]),
                "txp": rng.choice([-25, 0, 20, -100, 127, -128]),
-               "raw_len": rng.randrange(1, 10), "queue": rng.choice([1, 1, 2, 3]),
+               "raw_len": rng.randrange(1, 10), "queue": rng.choice([1, 1, 2, 3]) if svc != "url" else rng.choice([2, 3]),
                "seed": rng.getrandbits(30)}
     # temperature sweep (exact hundredths, both signs)
     step = 97 if ctx.tier == "quick" else 7
@@ -134,9 +134,11 @@ def run_case(ctx, case):
                 expected.append((mac, case["name"], case["pa_level"] if case["pa"] else None, descr2))
         elif kind == "adversarial":
             area = adversarial_area(rng)
-            lo = rng.choice([None, None, None, 0, 3, 5, 28, 30, 31, 63])
-            total_len = 6 + len(area)
-            pl = ble_ref.encode_raw(mac, area[: 32 - 2 - 6 - 3], chidx, length_override=lo,
+            lo = rng.choice([None, None, None, 0, 3, 5, 28, 30, 31, 63, "rfu40", "rfu80", "rfuC0"])
+            area = area[: 32 - 2 - 6 - 3]
+            if isinstance(lo, str):  # consistent 6-bit length with a reserved (RFU) bit set
+                lo = (6 + len(area)) | int(lo[3:], 16)
+            pl = ble_ref.encode_raw(mac, area, chidx, length_override=lo,
                                     pad=bytes(rng.getrandbits(8) for _ in range(32)))
             rr.inject_rx(0, pl)
         elif kind == "random":
@@ -190,6 +192,16 @@ def run_case(ctx, case):
             got.append(q)
         if kind in ("adversarial", "random"):
             # whatever is queued must at least be CRC/length consistent per the reference
+            for q in got:
+                if kind == "adversarial":
+                    d = ble_ref.phone_decode(b"\x71\x91\x7d\x6b", pl, CH[case["chan"]])
+                    raw_seen = b"".join(bytes(x) for x in q.data if isinstance(x, (bytes, bytearray)))
+                    if not d["ok"] or bytes(q.mac) != mac or (d["ok"] and len(raw_seen) > len(d["ad_raw"]) + 2):
+                        ctx.violation("adversarial-packet-queued-as-garbage", "queued element mac %s with %d raw "
+                                      "bytes; reference: ok=%s AD area %d bytes (length byte 0x%02X)"
+                                      % (bytes(q.mac).hex(), len(raw_seen), d["ok"], len(d.get("ad_raw", b"")),
+                                         lo if isinstance(lo, int) else -1), case)
+                        return
             ctx.nontrivial((kind, case["chan"], len(got)))
             ctx.sample({"kind": kind, "queued": len(got)})
             return
@@ -254,10 +266,11 @@ def build_lib_services(F, case, rng, j, free):
             descr.append(("temperature", t))
         elif kind == "url":
             s = F.UrlServiceData()
-            s.pa_level_at_1_meter = case["txp"]
+            txp = [case["txp"], -7, 33, -128][j % 4]  # differs from packet to packet
+            s.pa_level_at_1_meter = txp
             s.data = case["url"]
             out.append(s)
-            descr.append(("url", case["url"], case["txp"]))
+            descr.append(("url", case["url"], txp))
         elif kind == "raw":
             d = bytes(rng.getrandbits(8) for _ in range(case["raw_len"]))
             out.append(d)
@@ -282,8 +295,9 @@ def build_ref_services(case, rng, j):
             ads.append(ble_ref.temperature_ad(case["temp"]))
             descr.append(("temperature", case["temp"]))
         elif kind == "url":
-            ads.append(ble_ref.url_ad(case["url"], case["txp"]))
-            descr.append(("url", case["url"], case["txp"]))
+            txp = [case["txp"], -7, 33, -128][j % 4]
+            ads.append(ble_ref.url_ad(case["url"], txp))
+            descr.append(("url", case["url"], txp))
         elif kind == "raw":
             d = bytes(rng.getrandbits(8) for _ in range(case["raw_len"]))
             ads.append((0xFF, d))
